@@ -199,7 +199,7 @@ class Canon:
         if isinstance(e, ast.Tuple):
             els = tuple(self._t(x) for x in e.elts)
             # (a, b, c) rebuilt from `for a, b, c in ...` is the element itself
-            if els and all(x[0] == 'sub' and x[1][0] == 'cvar' and x[2] == ('num', j) for j, x in enumerate(els)) and len({x[1] for x in els}) == 1 and self._arity.get(els[0][1]) == len(els):
+            if els and all(x[0] == 'sub' and x[2] == ('num', j) for j, x in enumerate(els)) and len({x[1] for x in els}) == 1 and self._arity.get(els[0][1]) == len(els):
                 return els[0][1]
             return ('tuple',) + els
         if isinstance(e, ast.List):
@@ -232,13 +232,21 @@ class Canon:
                 sub._stack, sub._cdepth, sub._arity = self._stack, self._cdepth + gi, self._arity
                 it = sub._t(g.iter)
                 cv = ('cvar', self._cdepth + gi, 0)
+                def _names_only(t):
+                    return isinstance(t, ast.Name) or (isinstance(t, (ast.Tuple, ast.List)) and all(_names_only(x) for x in t.elts))
+
+                def _bind(t, base):
+                    # unpacking succeeded, so every element has exactly these positions: a name is the element's position
+                    if isinstance(t, ast.Name):
+                        bound[t.id] = base
+                        return
+                    self._arity[base] = len(t.elts)
+                    for j, x in enumerate(t.elts):
+                        _bind(x, ('sub', base, ('num', j)))
                 if isinstance(g.target, ast.Name):
                     bound[g.target.id] = cv
-                elif isinstance(g.target, (ast.Tuple, ast.List)) and all(isinstance(x, ast.Name) for x in g.target.elts):
-                    # unpacking succeeded, so every element has exactly these positions: a name is the element's position
-                    for j, x in enumerate(g.target.elts):
-                        bound[x.id] = ('sub', cv, ('num', j))
-                    self._arity[cv] = len(g.target.elts)
+                elif _names_only(g.target):
+                    _bind(g.target, cv)
                 else:
                     for j, nm in enumerate(_target_names(g.target)):
                         bound[nm] = ('cvar', self._cdepth + gi, 1 + j)
